@@ -138,6 +138,19 @@ pub fn check_image<H: HashAlgorithm>(e: &mut Exec<'_, H>, img: &ImageRec, snap: 
             crate::decoder::check_accounting(&dimg).map_err(|(class, d)| v("C19", &class, format!("{what}: after recovery: {d}"), img.step))?;
             e.rep.lock().unwrap().decodes += 1;
         }
+        // a recovered store must itself reopen transparently: close it and open it again (what
+        // recovery kept only in memory shows up here), then re-check root, sync_seqn and values
+        drop(nomt);
+        let nomt = Nomt::<H>::open(to_options(&img.path, &iopts))
+            .map_err(|err| v(prop, "image-second-open-fails", format!("{what}: after a successful recovery and a clean close the directory cannot be opened again: {err:#}"), img.step))?;
+        if nomt.root().into_inner() != want_root || nomt.sync_seqn() != want_seqn {
+            return Err(v(prop, "image-second-open-differs", format!("{what}: recovery showed the {name} state, but after a clean close and a second open root = {} (expected {}), sync_seqn = {} (expected {want_seqn})", hex(&nomt.root().into_inner()), hex(&want_root), nomt.sync_seqn()), img.step));
+        }
+        for k in &keys {
+            let got = nomt.read(*k).map_err(|err| v(prop, "image-read-error", format!("{what}: read({}) failed: {err:#}", hex(k)), img.step))?;
+            let w = want.get(k).map(|x| value_bytes(k, *x));
+            if got != w { return Err(v(prop, "image-second-open-differs", format!("{what}: after a clean close and a second open read({}) = {}, {name} state has {}", hex(k), dv(&got), dv(&w)), img.step)); }
+        }
         // the reopened store accepts a further commit that behaves as in the model
         {
             let mut st: State = want.clone();
